@@ -46,6 +46,8 @@ func (ir *IntrospectionResolver) resolveSchema(schema *ast.Schema, selectionSet 
 
 	for _, f := range common.SelectionSetToFields(selectionSet, nil) {
 		switch f.Name {
+		case "__typename":
+			result[f.Alias] = "__Schema"
 		case "description":
 			if schema.Description != "" {
 				result[f.Alias] = schema.Description
@@ -91,6 +93,8 @@ func (ir *IntrospectionResolver) resolveType(schema *ast.Schema, typ *ast.Type, 
 	if typ.NonNull {
 		for _, f := range common.SelectionSetToFields(selectionSet, nil) {
 			switch f.Name {
+			case "__typename":
+				result[f.Alias] = "__Type"
 			case "kind":
 				result[f.Alias] = "NON_NULL"
 			case "ofType":
@@ -109,6 +113,8 @@ func (ir *IntrospectionResolver) resolveType(schema *ast.Schema, typ *ast.Type, 
 	if typ.Elem != nil {
 		for _, f := range common.SelectionSetToFields(selectionSet, nil) {
 			switch f.Name {
+			case "__typename":
+				result[f.Alias] = "__Type"
 			case "kind":
 				result[f.Alias] = "LIST"
 			case "ofType":
@@ -127,6 +133,8 @@ func (ir *IntrospectionResolver) resolveType(schema *ast.Schema, typ *ast.Type, 
 
 	for _, f := range common.SelectionSetToFields(selectionSet, nil) {
 		switch f.Name {
+		case "__typename":
+			result[f.Alias] = "__Type"
 		case "kind":
 			result[f.Alias] = namedType.Kind
 		case "name":
@@ -224,7 +232,7 @@ func (ir *IntrospectionResolver) resolveType(schema *ast.Schema, typ *ast.Type, 
 			for _, fi := range namedType.Fields {
 				// call resolveField instead of resolveInputValue because it has
 				// the right type and is a superset of it
-				inputFields = append(inputFields, ir.resolveField(schema, fi, f.SelectionSet))
+				inputFields = append(inputFields, ir.resolveFieldOfType(schema, fi, f.SelectionSet, "__InputValue"))
 			}
 			result[f.Alias] = inputFields
 		default:
@@ -236,12 +244,19 @@ func (ir *IntrospectionResolver) resolveType(schema *ast.Schema, typ *ast.Type, 
 }
 
 func (ir *IntrospectionResolver) resolveField(schema *ast.Schema, field *ast.FieldDefinition, selectionSet ast.SelectionSet) map[string]interface{} {
+	return ir.resolveFieldOfType(schema, field, selectionSet, "__Field")
+}
+
+// resolveFieldOfType resolves a field (__Field) or an input field (__InputValue)
+func (ir *IntrospectionResolver) resolveFieldOfType(schema *ast.Schema, field *ast.FieldDefinition, selectionSet ast.SelectionSet, typename string) map[string]interface{} {
 	result := make(map[string]interface{})
 
 	deprecated, deprecatedReason := hasDeprecatedDirective(field.Directives)
 
 	for _, f := range common.SelectionSetToFields(selectionSet, nil) {
 		switch f.Name {
+		case "__typename":
+			result[f.Alias] = typename
 		case "name":
 			result[f.Alias] = field.Name
 		case "description":
@@ -276,6 +291,8 @@ func (ir *IntrospectionResolver) resolveDirective(schema *ast.Schema, directive 
 
 	for _, f := range common.SelectionSetToFields(selectionSet, nil) {
 		switch f.Name {
+		case "__typename":
+			result[f.Alias] = "__Directive"
 		case "name":
 			result[f.Alias] = directive.Name
 		case "description":
@@ -317,6 +334,8 @@ func (ir *IntrospectionResolver) resolveInputValue(schema *ast.Schema, arg *ast.
 
 	for _, f := range common.SelectionSetToFields(selectionSet, nil) {
 		switch f.Name {
+		case "__typename":
+			result[f.Alias] = "__InputValue"
 		case "name":
 			result[f.Alias] = arg.Name
 		case "description":
@@ -342,6 +361,8 @@ func resolveEnumValue(enum *ast.EnumValueDefinition, selectionSet ast.SelectionS
 
 	for _, f := range common.SelectionSetToFields(selectionSet, nil) {
 		switch f.Name {
+		case "__typename":
+			result[f.Alias] = "__EnumValue"
 		case "name":
 			result[f.Alias] = enum.Name
 		case "description":
